@@ -8,6 +8,11 @@
     trace (SMP PDUs both ways, delegate calls, encryption start keys, pair() result, pairing events,
     PairingKeys, key stores, reconnection in the same and in swapped roles) is validated by
     specs/Smp/SmpTrace.tla against the spec's actions and properties.
+(H) histories of pairings (Smp.tla NewLife / Forget, constant Lives): the same two devices pair AGAIN - same or
+    swapped roles, legacy or SC, another method, on a new connection or on the link encrypted under the earlier
+    bond - while one or both still hold the keys of the earlier bond, or after the user deleted it on one of
+    them; at every encryption start of every life the key in the central's LE Enable Encryption command must
+    be the key the peripheral's host (Device.get_long_term_key) replies with.
 """
 from __future__ import annotations
 
@@ -28,6 +33,7 @@ COOP = ["Start", "RxReq", "Accept", "TxRsp", "RxRsp", "TxCfm", "RxCfm", "TxRnd",
         "EncReq", "LtkReply", "EncOn", "TxKey", "RxKey", "Complete", "Rebond"]
 ACTIONS = ["Start", "RxReq", "Accept", "TxRsp", "RxRsp", "TxCfm", "RxCfm", "TxRnd", "RxRnd", "TxFail", "RxFail",
            "EncReq", "LtkReply", "EncOn", "TxKey", "RxKey", "Complete", "Rebond"]
+HIST = ["Forgets", "Relive"]
 
 
 # ----------------------------------------------------------------------------- (M) model checking
@@ -50,6 +56,7 @@ def _mc_cfg(ctx, name, c, liveness=False, deadlock=True):
     text += f"  KdS = {_tla_set(c['KdS'])}\n  Rounds = {c['Rounds']}\n"
     text += f"  RspAny = {'TRUE' if c['RspAny'] else 'FALSE'}\n  Faults = {'TRUE' if c['Faults'] else 'FALSE'}\n"
     text += f"  Strays = {'TRUE' if c.get('Strays') else 'FALSE'}\n"
+    text += f"  Lives = {c.get('Lives', 1)}\n  Provider = \"{c.get('Provider', 'session')}\"\n"
     for inv in INVARIANTS:
         text += f"INVARIANT {inv}\n"
     if liveness:
@@ -114,7 +121,16 @@ def mc_runs(ctx):
     # termination under fairness (small constants, no state constraint)
     runs.append(("liveness", dict(base, IoI=["KeyboardDisplay"], IoR=pk_ios, MitmS=[True], Rounds=2, Faults=True),
                  ACTIONS, True))
+    # histories of pairings: 3 lives (pair, reconnect / forget, pair again in the same or swapped roles, legacy / SC,
+    # bonded or not: unbonded pairings before / over / after a bond); 3 lives of passkey entry with every user answer
+    # and tampering (failed attempts over an earlier bond, another attempt after a failure)
+    hist = dict(base, IoI=["NoInputNoOutput"], IoR=["NoInputNoOutput"], MitmS=[False])
+    runs.append(("histories", dict(hist, BondS=B, Lives=3), COOP + HIST, False))
+    runs.append(("histories-faults", dict(base, IoI=["KeyboardOnly"], IoR=["DisplayOnly"], MitmS=[True], Faults=True, Lives=3),
+                 ACTIONS + HIST + ["AskDisplay", "AskInput", "RxStale"], False))
     if not ctx.quick:
+        runs.append(("histories-consent", dict(hist, Faults=True, Lives=3), ACTIONS + HIST + ["Consent"], False))
+        runs.append(("histories-masks", dict(hist, KdS=[["ENC", "ID"], ["ID"]], Lives=3), COOP + HIST, False))
         runs.append(("all-faults", dict(base, Rounds=2, Faults=True), ACTIONS + ui + ["Consent", "RxStale"], False))
         # 4-bit masks sampled: each run takes 3 masks out of the 16 (81 mask quadruples per flag setting)
         bits = ["ENC", "ID", "SIGN", "LINK"]
@@ -127,8 +143,10 @@ def mc_runs(ctx):
 
 def model_check(ctx, rep, only=None):
     runs = [r for r in mc_runs(ctx) if only is None or r[0] in only]
-    with concurrent.futures.ThreadPoolExecutor(max_workers=3) as ex:
-        futs = [ex.submit(_mc, ctx, rep, name, c, need, live, 4) for (name, c, need, live) in runs]
+    # the quick runs are small (3 k - 60 k states: JVM start and parsing dominate, more than 2 TLC workers only burn
+    # CPU): five at a time (two waves), 2 workers each, next to the 8 scenario processes
+    with concurrent.futures.ThreadPoolExecutor(max_workers=5 if ctx.quick else 3) as ex:
+        futs = [ex.submit(_mc, ctx, rep, name, c, need, live, 2 if ctx.quick else 4) for (name, c, need, live) in runs]
         for f in futs:
             f.result()
 
@@ -170,6 +188,8 @@ def scenarios(ctx):
 
     def add(sc):
         sc["seed"] = ctx.seed * 100003 + len(out)
+        if sc.get("keystore"):
+            sc["keystore"] = os.path.join(ctx.out, "keystores", f"ks{sc['seed']}")
         if sc["delay"] is None:
             sc["delay"] = rng.choice([0.0, 0.0, 0.003, 0.05])
         out.append(sc)
@@ -250,6 +270,98 @@ def scenarios(ctx):
         add(mk("NoInputNoOutput", "KeyboardDisplay", sc, sc, True, True, **{"ci.oob": oi, "cr.oob": orr}, delay=None))
         add(mk("KeyboardDisplay", "DisplayYesNo", sc, sc, False, False, **{"ci.oob": oi, "cr.oob": orr}, delay=None))
     add(mk("NoInputNoOutput", "NoInputNoOutput", True, True, True, True, **{"ci.oob": True, "cr.oob": True}, tamper=True, delay=None))
+    # F. histories of pairings
+    for h in histories(ctx, rng):
+        add(h)
+    return out
+
+
+NI = "NoInputNoOutput"
+
+
+def history(first, *more, keystore=None):
+    """first life + further lives.  `keep` on a life = pair on the link the previous life's last reconnection
+    left encrypted: the previous life's reconnections are ordered so that the last one has the right central."""
+    lives = [first] + list(more)
+    for prev, nxt in zip(lives, lives[1:]):
+        if nxt.get("keep"):
+            last = "i" if nxt.get("central", 0) == prev.get("central", 0) else "r"
+            steps = [x for x in prev.get("after", ["i", "r"]) if x != last]
+            prev["after"] = steps + [last]
+    first["lives"] = list(more)
+    first["delay"] = None
+    if keystore:
+        first["keystore"] = keystore
+    return first
+
+
+def histories(ctx, rng):
+    B = [False, True]
+    out = []
+
+    def jw(sc, **kw):
+        return mk(NI, NI, sc, sc, False, False, **kw)
+
+    # F1. bond, reconnect both ways (or the bond deleted on one / both devices), pair again: legacy / SC x legacy / SC x
+    #     same / swapped roles x what the devices still hold x new connection / the link encrypted under the old bond
+    for a in B:
+        for b in B:
+            for central in (0, 1):
+                for after in (["i", "r"], ["i", "r", "Fi"], ["r", "i", "Fr"], ["i", "Fi", "Fr"]):
+                    out.append(history(jw(a, after=after), jw(b, central=central)))
+                out.append(history(jw(a), jw(b, central=central, keep=True)))
+                # the same with the bonds kept in JSON key-store files (another KeyStore behind the same API)
+                out.append(history(jw(a), jw(b, central=central), keystore="json"))
+    # F2. a failed attempt over an existing bond (refused / wrong passkey / tampered / compare "no"), then another one
+    fails = [
+        lambda sc, c: jw(sc, central=c, **{"ar.accept": False}),
+        lambda sc, c: mk("KeyboardOnly", "DisplayOnly", sc, sc, True, True, central=c, **{"ai.pkin": 2}, badround=rng.randint(1, 20)),
+        lambda sc, c: jw(sc, central=c, tamper=True),
+        lambda sc, c: mk("DisplayYesNo", "KeyboardDisplay", True, True, True, True, central=c, **{"ar.cmp": False}),
+        lambda sc, c: mk("KeyboardDisplay", "KeyboardOnly", sc, sc, True, True, central=c, **{"ar.pkin": 0}),
+    ]
+    k = 0
+    for a in B:
+        for f in fails:
+            c2, c3 = [(0, 0), (1, 0), (1, 1), (0, 1)][k % 4]
+            out.append(history(jw(a), f(bool(k % 2), c2), jw(not a, central=c3)))
+            k += 1
+    # F3. another association model the second time (an authenticated bond replaced by a Just Works one and back)
+    pk = lambda sc, **kw: mk("KeyboardOnly", "DisplayOnly", sc, sc, True, True, **kw)
+    nc = lambda **kw: mk("DisplayYesNo", "KeyboardDisplay", True, True, True, True, **kw)
+    for ks in (None, "json"):
+        out.append(history(pk(False), jw(True, central=1), nc(central=1), keystore=ks))
+        out.append(history(pk(True), jw(False), pk(False, central=1, keep=True), keystore=ks))
+        out.append(history(nc(), jw(False, central=1, keep=True), jw(True, central=0), keystore=ks))
+        out.append(history(jw(True), pk(True, passkey=0, central=1), jw(False, central=1, after=["r", "i", "Fi"]), nc(), keystore=ks))
+    # F4. key-distribution masks change between the bonds (legacy: one LTK only, then both; nothing but the identity)
+    m = lambda sc, i1, i2, r1, r2, **kw: mk("KeyboardDisplay", "KeyboardDisplay", sc, sc, True, True,
+                                            **{"ci.ikd": i1, "ci.rkd": i2, "cr.ikd": r1, "cr.rkd": r2}, **kw)
+    E, ID, EI = ["ENC"], ["ID"], ["ENC", "ID"]
+    for ks in (None, "json"):
+        out.append(history(m(False, E, EI, EI, EI), m(False, EI, EI, EI, EI, central=1), keystore=ks))
+        out.append(history(m(False, EI, EI, EI, EI), m(False, EI, ID, EI, ID, central=1), m(False, ID, EI, EI, EI), keystore=ks))
+        out.append(history(m(False, EI, EI, EI, EI), m(True, ID, ID, ID, ID), m(False, EI, E, EI, E, central=1, keep=True), keystore=ks))
+        out.append(history(m(True, EI, EI, EI, EI), m(False, ID, EI, ID, EI, central=1), m(True, [], [], [], []), keystore=ks))
+    # F5. an unbonded pairing over a bond, then a bonded one
+    for a in B:
+        for (bi, br) in ((False, True), (False, False)):
+            out.append(history(jw(a), jw(not a, central=int(bi == br), **{"ci.bond": bi, "cr.bond": br}), jw(a, central=1)))
+    # F6. random histories of 3-4 lives
+    pairs = [(x, y) for x in IO for y in IO]
+    for _ in range(12 if ctx.quick else 400):
+        lives = []
+        for j in range(rng.choice([3, 3, 4])):
+            x, y = rng.choice(pairs)
+            lf = mk(x, y, rng.random() < 0.5, rng.random() < 0.5, rng.random() < 0.6, rng.random() < 0.6,
+                    passkey=rng.choice([0, 123456, 475710]), central=0 if j == 0 else rng.choice([0, 1]),
+                    after=rng.choice([["i", "r"], ["r", "i"], ["i", "r", "Fi"], ["i", "r", "Fr"], ["Fi", "Fr"], ["r"]]))
+            if j and rng.random() < 0.3:
+                lf["keep"] = True
+            if rng.random() < 0.15:
+                lf["ar"]["accept"] = False
+            lives.append(lf)
+        out.append(history(*lives, keystore=rng.choice([None, "json"])))
     return out
 
 
@@ -277,7 +389,8 @@ def _trace_cfg(ctx):
     p = os.path.join(ctx.out, "smptrace.cfg")
     with open(p, "w") as f:
         f.write("SPECIFICATION TraceSpec\nCONSTANTS\n  IoI = {}\n  IoR = {}\n  ScS = {}\n  MitmS = {}\n  BondS = {}\n  OobS = {}\n"
-                "  KdS = {}\n  Rounds = 20\n  RspAny = TRUE\n  Faults = TRUE\n  Strays = TRUE\nCHECK_DEADLOCK FALSE\n")
+                "  KdS = {}\n  Rounds = 20\n  RspAny = TRUE\n  Faults = TRUE\n  Strays = TRUE\n  Lives = 1\n  Provider = \"session\"\n"
+                "CHECK_DEADLOCK FALSE\n")
     return p
 
 
@@ -286,6 +399,9 @@ def _mode(sc):
 
 
 def abstract_key(sc):
+    if sc.get("lives"):
+        return ("json-key-store" if sc.get("keystore") else "memory-key-store",) + tuple((lf.get("central", 0), bool(lf.get("keep")), tuple(lf.get("after", ["i", "r"])), abstract_key(dict(lf, lives=[])))
+                     for lf in cp.life_list(sc))
     return (sc["ci"]["io"], sc["cr"]["io"], sc["ci"]["sc"], sc["cr"]["sc"], sc["ci"]["mitm"], sc["cr"]["mitm"],
             sc["ci"]["bond"], sc["cr"]["bond"], sc["ci"]["oob"], sc["cr"]["oob"],
             tuple(sc["ci"]["ikd"]), tuple(sc["ci"]["rkd"]), tuple(sc["cr"]["ikd"]), tuple(sc["cr"]["rkd"]),
@@ -299,6 +415,13 @@ def classify(sc, events, verdict):
     info = verdict[3] if len(verdict) > 3 and isinstance(verdict[3], dict) else {}
     exp = info.get("expect", {}) if isinstance(info.get("expect"), dict) else {}
     m = exp.get("m", "?")
+    # the life (pairing attempt of the history) the event belongs to, and its configuration
+    hlives = cp.life_list(sc)
+    life = info.get("life", 1) if isinstance(info.get("life"), int) else 1
+    life = min(max(life, 1), len(hlives))
+    whole = sc
+    sc = hlives[life - 1]
+    again = ":re-pairing" if life > 1 else ""
     mode = _mode(sc)
     zero = ":passkey-000000" if (m == "PK" and sc["passkey"] == 0) else ""
     what = {k: v for k, v in (ev or {}).items() if v not in (0, "", False, [])}
@@ -329,7 +452,17 @@ def classify(sc, events, verdict):
             why = f"event is not a step of the specified protocol in phase {info.get('ph')}"
     elif failing:
         p = failing[0]
-        if ev["e"] == "rebond":
+        if ev["e"] == "ltkreply" and p == "agreement":
+            # encryption start: the peripheral's long-term-key provider does not return the key of the central's request
+            starts = [j for j, e in enumerate(events[:line - 1]) if e["e"] == "life"]
+            earlier = events[: starts[-1]] if starts else []
+            old = {e.get(f) for e in earlier for f in ("k", "k2") if e["e"] in ("encreq", "ltkreply", "tx", "report", "rebond")} - {0}
+            kind = "no-key" if not ev["k"] else "key-of-earlier-bond" if ev["k"] in old else "another-key"
+            sig = f"smp:agreement:{m}-{mode}:{'re-pairing' if life > 1 else 'first-pairing'}:peripheral-ltk-provider-returns-{kind}"
+            why = (f"encryption start of pairing #{life} of this pair of devices: the central's LE Enable Encryption carries key #{info.get('lk', {}).get('req')}, "
+                   f"the peripheral's long-term-key provider answers with key #{ev['k']} ({kind})")
+            again = ""
+        elif ev["e"] == "rebond":
             roles = "same-roles" if ev["s"] == "i" else "swapped-roles"
             part = "" if (set(sc["ci"]["ikd"]) & set(sc["cr"]["ikd"]) >= {"ENC"} and set(sc["ci"]["rkd"]) & set(sc["cr"]["rkd"]) >= {"ENC"}) or mode == "sc" else ":one-way-enc-key"
             if ev["k"] and ev["k"] != ev["k2"]:
@@ -349,7 +482,12 @@ def classify(sc, events, verdict):
     else:
         sig = f"smp:unknown:{ev['e']}-{ev['t']}"
         why = "rejected without a failing clause"
+    # (the kind of key store is part of the input class only for the clauses that read the stores)
+    sig += again + (":json-key-store" if whole.get("keystore") and sig.split(":")[1] in ("rebond", "honest", "nokeys") else "")
     cfgtxt = f"I={sc['ci']} R={sc['cr']} answers I={sc['ai']} R={sc['ar']} tamper={sc['tamper']} passkey={sc['passkey']:06d}"
+    if len(hlives) > 1:
+        cfgtxt = (f"life {life} of {len(hlives)} (central = device {sc.get('central', 0)}{', on the link encrypted under the earlier bond' if sc.get('keep') else ''}; "
+                  f"earlier lives: {[(_mode(h), h.get('central', 0), h.get('after', ['i', 'r'])) for h in hlives[:life - 1]]}) " + cfgtxt)
     summary = (f"{why}; event #{line} {what}; {cfgtxt}; spec state: ph={info.get('ph')} res={info.get('res')} reported={info.get('rep')} "
                f"mustfail={info.get('mustfail')} link={info.get('lk')}; failing clauses: {[k for k in ('act',) + PROPS if info.get(k) is False]}")
     return sig, summary
@@ -376,14 +514,19 @@ def validate(ctx, rep, scs, results, batches=1):
             rep.extra["trace_states"] = rep.extra.get("trace_states", 0) + res["states"]
             for tid, v in res["verdicts"].items():
                 verdicts[i + tid - 1] = v
-    stats = {"accepted": 0, "rejected": 0, "paired": 0, "failed": 0}
+    stats = {"accepted": 0, "rejected": 0, "paired": 0, "failed": 0, "histories": 0, "history_lives": 0, "re_pairings_ok": 0}
     for k, (sc, r) in enumerate(zip(scs, results)):
         v = verdicts[k]
         events, info = r[1], r[2]
         rep.traces += 1
         stats["paired" if info["pair_ok"] else "failed"] += 1
         rep.case(abstract_key(sc), nontrivial=len(events) > 8,
-                 sample={"I": sc["ci"], "R": sc["cr"], "answers": [sc["ai"], sc["ar"]], "events": len(events), "pair_ok": info["pair_ok"]} if k % 97 == 0 else None)
+                 sample={"I": sc["ci"], "R": sc["cr"], "answers": [sc["ai"], sc["ar"]], "events": len(events), "pair_ok": info["pair_ok"],
+                         "lives": len(info["lives"])} if k % 97 == 0 else None)
+        if len(info["lives"]) > 1:
+            stats["histories"] += 1
+            stats["history_lives"] += len(info["lives"])
+            stats["re_pairings_ok"] += sum(1 for x in info["lives"][1:] if x["pair_ok"])
         if v[0] == "ACCEPT":
             stats["accepted"] += 1
             continue
@@ -398,8 +541,9 @@ def validate(ctx, rep, scs, results, batches=1):
 # ----------------------------------------------------------------------------- entry points
 def run(ctx, rep):
     rep.rule = ("one real pairing (two Devices on a LocalLink, scripted delegates) per configuration, then reconnection in the same and in "
-                "swapped roles; each recorded trace validated by SmpTrace.tla; distinct = distinct (IO pair, SC/MITM/bonding/OOB flags, masks, "
-                "user answers, tamper, passkey class, bad round) tuples")
+                "swapped roles; histories: 2-4 such lives of the same two devices (re-pairing over / after deleting the earlier bond); each "
+                "recorded trace validated by SmpTrace.tla; distinct = distinct (IO pair, SC/MITM/bonding/OOB flags, masks, "
+                "user answers, tamper, passkey class, bad round) tuples, per life + roles / reconnections / deletions for histories")
     rep.assumptions = [
         "crypto is symbolic in the model: a confirm / DHKey check succeeds iff both sides used the same inputs (numeric correctness is C14)",
         "the tap plays the link layer during encryption start (LE Long Term Key Request to the peripheral's host), because the virtual controller reports success without asking for a key",
@@ -513,6 +657,72 @@ def selftest(ctx, rep):
     jw[idx(jw, e="report", t="keys", s="i")]["b"] = True
     scs.append(jw_sc); traces.append(jw); names.append("trace/authenticated-flag-with-just-works")
 
+    # ---- histories of pairings
+    def store_first(net):
+        # documented misbehaviour: the peripheral's long-term-key provider looks in the key store before the pairing
+        # in progress (wrapped around the real provider; nothing in /repo is touched)
+        for d in net.devices:
+            real = d.host.long_term_key_provider
+
+            async def provider(handle, rand, ediv, d=d, real=real):
+                conn = d.lookup_connection(handle)
+                keys = await d.keystore.get(str(conn.peer_address)) if conn is not None else None
+                if keys is not None:
+                    k = keys.ltk or keys.ltk_peripheral
+                    if k:
+                        return k.value
+                return await real(handle, rand, ediv)
+
+            d.host.long_term_key_provider = provider
+
+    def stale_session(net):
+        # documented misbehaviour: on a reconnection the provider answers with a key that is not in the store
+        for d in net.devices:
+            real = d.host.long_term_key_provider
+
+            async def provider(handle, rand, ediv, d=d, real=real):
+                k = await real(handle, rand, ediv)
+                conn = d.lookup_connection(handle)
+                if k is not None and conn is not None and d.smp_manager.sessions.get(handle) is None:
+                    return bytes(x ^ 0x5A for x in k)
+                return k
+
+            d.host.long_term_key_provider = provider
+
+    jw = lambda sc, **kw: mk(NI, NI, sc, sc, False, False, **kw)
+    hcases = {
+        "history/provider-store-first/sc-over-legacy-bond": (history(jw(False), jw(True)), store_first),
+        "history/provider-store-first/legacy-over-sc-bond-swapped-roles": (history(jw(True), jw(False, central=1)), store_first),
+        "history/provider-store-first/on-the-encrypted-link": (history(jw(True), jw(True, keep=True)), store_first),
+        "history/provider-other-key-on-reconnection": (history(jw(True), jw(False, central=1)), stale_session),
+    }
+    for name, (sc, patch) in hcases.items():
+        sc["seed"] = 11
+        sc["delay"] = 0.0
+        ev, info = cp.run_scenario(sc, device_patch=patch)
+        scs.append(sc); traces.append(ev); names.append(name)
+    good_h = history(jw(False), jw(True, central=1, **{"ar.accept": False}), jw(True, central=1, after=["i", "r", "Fr"]), jw(False))
+    good_h["seed"] = 11
+    good_h["delay"] = 0.0
+    goodh, _ = cp.run_scenario(good_h)
+    scs.append(good_h); traces.append(goodh); names.append("CONTROL/good-history-accepted")
+
+    def corrupt_h(name, fn):
+        t = json.loads(json.dumps(goodh))
+        fn(t)
+        scs.append(good_h); traces.append(t); names.append(name)
+
+    def nth(trace, n, **kw):
+        return [i for i, e in enumerate(trace) if all(e.get(k) == v for k, v in kw.items())][n]
+
+    # life 3's provider answers with the key life 1 ran on; the refused life 2 changes a key store; life 3's central
+    # reconnects with a key of life 1; life 4 (after the bond was deleted on one device) loses its ltk reply
+    corrupt_h("history-trace/old-key-in-ltk-reply", lambda t: t[nth(t, 1, e="ltkreply")].update(k=t[nth(t, 0, e="ltkreply")]["k"]))
+    corrupt_h("history-trace/store-changed-by-refused-attempt", lambda t: t[nth(t, 1, e="quiesce")].update(sid_r=99))
+    corrupt_h("history-trace/reconnection-with-key-of-earlier-bond",
+              lambda t: t[nth(t, 2, e="rebond")].update(k=t[nth(t, 0, e="rebond")]["k"], k2=t[nth(t, 0, e="rebond")]["k"]))
+    corrupt_h("history-trace/drop-ltk-reply-of-last-life", lambda t: t.pop(nth(t, 2, e="ltkreply")))
+
     res = tlc.trace_batch(ctx.spec("Smp", "SmpTrace.tla"), _trace_cfg(ctx), traces)
     out = {}
     for k, name in enumerate(names):
@@ -529,3 +739,16 @@ def selftest(ctx, rep):
             rep.violation(f"selftest:{name}", f"binding self-test: {name} was not detected")
     for k, v in out.items():
         print(f"selftest {k}: {v}")
+    # the model itself: a long-term-key provider that looks in the store first must be refuted by TLC on histories of
+    # two lives (and only there: with a single life it is indistinguishable from the right one)
+    B = [True, False]
+    base = {"IoI": [NI], "IoR": [NI], "ScS": B, "MitmS": [False], "BondS": [True], "OobS": [False], "KdS": [FULL],
+            "Rounds": 1, "RspAny": False, "Faults": False, "Strays": False, "Provider": "store"}
+    for lives, expect in ((1, None), (2, "Agreement")):
+        r = tlc.mc(ctx.spec("Smp", "Smp.tla"), _mc_cfg(ctx, f"selftest-store-first-{lives}", dict(base, Lives=lives)), workers=4, timeout=3000)
+        got = r["violation"]
+        rep.case(("selftest", "model/store-first-provider", lives))
+        print(f"selftest model/store-first-provider/lives={lives}: states={r['states']} violation={got}")
+        if (expect is None) != (not got) or (expect and expect not in str(got)):
+            rep.violation(f"selftest:model/store-first-provider/lives={lives}",
+                          f"Smp.tla with Provider = store-first, Lives = {lives}: expected {expect or 'no violation'}, TLC reports {got}")
